@@ -52,7 +52,7 @@ func (f *Subtypep) Call(s *slip.Scope, args slip.List, depth int) slip.Object {
 
 	if pt1 != nil && pt2 != nil {
 		if (pt1 == pt2 || pt1 != nil && pt1.Inherits(pt2)) &&
-			(et2 == nil || et1 == et2 || et1.Inherits(et2)) {
+			(et2 == nil || et1 == et2 || (et1 != nil && et1.Inherits(et2))) {
 			result[0] = slip.True
 		}
 	}
